@@ -23,4 +23,12 @@ GROUPS += [
  dict(name='frame_size_select', cls='P', tu='C11_toc.c', entry='h_frame_size_select', dfcc=False, unwind=2, timeout=600, functions=['frame_size_select'],
       what='frame_size_select returns -1 or the legal Opus duration the variable_duration setting asks for'),
 ]
+_MS = dict(cls='B', tu='C11_ms_enc_ctl.c', dfcc=False, cex={'self': True}, canary='real', expect_canaries=2, unwind=5, timeout=900, functions=['opus_multistream_encoder_ctl_va_list'],
+           bounds='<= 3 streams (any split into coupled/mono), argument over all 2^32 values',
+           trusted=['per-stream encoders modelled by the contract of opus_encoder_ctl for the request under test (enforced on the real function in the enc_set_* groups)'])
+GROUPS += [
+ dict(_MS, name='ms_set_complexity', entry='h_ms_set_complexity', what='multistream OPUS_SET_COMPLEXITY: all streams or none'),
+ dict(_MS, name='ms_set_expert_frame_duration', entry='h_ms_set_expert_frame_duration', what='multistream OPUS_SET_EXPERT_FRAME_DURATION validates its argument'),
+ dict(_MS, name='ms_set_force_channels', entry='h_ms_set_force_channels', what='multistream OPUS_SET_FORCE_CHANNELS: all streams or none'),
+]
 META = {}
